@@ -6,6 +6,7 @@ Case: {"nv": 2..5, "nuni": 0..2, "ops": [[name, i, j, k], ...]}
 """
 from hypothesis import strategies as st
 
+from eglib import h
 from eglib.driver import Violation, require
 from eglib.model import Model, ModelRaises
 from eglib.world import World
@@ -225,6 +226,7 @@ def check_case(case):
         elif exp[0] == "set":
             require(isinstance(ret, (set, frozenset)), "return-value", f"{where}: unlink(destroy=False) returned {type(ret).__name__}")
             require(sorted(li.get(id(x), -1) for x in ret) == sorted(exp[1]), "return-value", f"{where}: unlink returned {sorted(li.get(id(x), -1) for x in ret)}, model removed {exp[1]}")
+            h.spoil(ret)        # the returned set is the caller's
         elif exp[0] == "none":
             if name == "unlink":
                 require(ret is None, "return-value", f"{where}: unlink(destroy=True) returned {ret!r}")
